@@ -123,7 +123,21 @@ def check(ctx):
     r3 = ctx.rule('R3', 'builder and search agree on layout (dirmap offset at 0, MPH at +4, guint16 table) and on the counted entries', floor=6)
     pk = gh.func('_gi_typelib_hash_builder_pack')
     pb, sb = gh.body(pk), b
-    pa = {ns(gh.text_of(l)): ns(gh.text_of(r)) for l, r, st in C.assignments(pb)}
+    # pack side from its gated summary (static helpers inlined, locals copy-propagated): what is stored where
+    PK = cgsa.CSummary(gh, '_gi_typelib_hash_builder_pack', keep_ptr_casts=True)
+    pmem = re.escape(PK.P(1))
+    pa = {}
+    for e_ in PK.effects:
+        if e_.kind == 'store' and re.match(r'^\*\(?\(guint32\*\)%s\)?$' % pmem, e_.target):
+            pa['*((guint32*)mem)'] = e_.value
+        if e_.kind == 'call' and e_.target == 'cmph_pack' and len(e_.args) > 1:
+            pa['packed_mem'] = re.sub(r'\b%s\b' % pmem, 'mem', e_.args[1])
+        if e_.kind == 'store':
+            mt_ = re.match(r'^\(?(\(guint16\*\)\(%s\+builder->dirmap_offset\))\)?\[(.*)\]$' % pmem, e_.target)
+            if mt_:
+                pa['table'] = re.sub(r'\b%s\b' % pmem, 'mem', mt_.group(1))
+                pa['table_index'] = mt_.group(2)
+                pa['table_value'] = e_.value
     HK = cgsa.CSummary(gh, '_gi_typelib_hash_search', keep_ptr_casts=True)
     memp = HK.P(0)
     M = re.escape(memp)
@@ -143,8 +157,9 @@ def check(ctx):
     r3.check(pra.get('builder->packed_size') == 'builder->dirmap_offset+(num_elts*sizeof(guint16))' and 'sizeof(guint32)+cmph_packed_size' in pra.get('offset', ''),
              'buffer size covers header, MPH and one guint16 per entry', GH, gh.line(pr), 'packed_size = %s' % pra.get('builder->packed_size'))
     # table[hash] = value for every string
-    st_tab = [(ns(gh.text_of(l)), ns(gh.text_of(r))) for l, r, s_ in C.assignments(pb) if ns(gh.text_of(l)).startswith('table[')]
-    r3.check(st_tab == [('table[hashv]', 'strval')], 'each key stores its directory index at its hash slot', GH, gh.line(pk), 'table stores: %s' % st_tab)
+    st_tab = (pa.get('table_index', ''), pa.get('table_value', ''))
+    r3.check(re.match(r'^cmph_search_packed\(\(guint8\*\)\(\w+\+sizeof\(guint32\)\),(\w+),strlen\(\1\)\)$', st_tab[0]) is not None and re.match(r'^\(guint16\)(\(\w+\))*value$', st_tab[1]) is not None,
+             'each key stores its directory index at its hash slot', GH, gh.line(pk), 'table stores: %s' % (st_tab,))
     # the count: builder iterates the same header field the lookups use
     ad = gm.func('add_directory_index_section')
     bf = set(m['name'] for m in C.walk(gm.body(ad)) if m.get('kind') == 'MemberExpr' and m.get('name') in ('n_entries', 'n_local_entries'))
